@@ -84,6 +84,27 @@ def build(cfg):
     return mux
 
 
+def must_accept(cfg):
+    """With no sharing limit (shadow_overlaps=None) every layout that the memory map itself accepts must give a working
+    multiplexer: a refusal then comes from Multiplexer/_Shadow and is a violation.  With a limit, or when the layout does not fit
+    the map, a refusal is legitimate."""
+    if cfg["ov"] is not None:
+        return False
+    from amaranth.lib import wiring
+    from amaranth_soc.memory import MemoryMap
+
+    class R(wiring.Component):
+        def __init__(self):
+            super().__init__({})
+    try:
+        mm = MemoryMap(addr_width=cfg["aw"], data_width=cfg["dw"], alignment=cfg["align"])
+        for i, (w, acc, addr, al) in enumerate(cfg["regs"]):
+            mm.add_resource(R(), name=f"r{i}", size=(w + cfg["dw"] - 1) // cfg["dw"], addr=addr, alignment=al)
+    except (ValueError, TypeError):
+        return False
+    return "multiplexer-without-sharing-limit"
+
+
 def netlist(ctx, cfg):
     mux = build(cfg)
     # the register list comes from the map (what software is told), not from the construction order above
